@@ -553,6 +553,10 @@ def options_leg(ns, res, spec, d, rng):
         if mode == 'defpolicy' and A:
             # a cell whose CSV form depends on the policy in force
             rng.choice(A)[-1] = rng.choice(['q"t', '"q"', 'x;y', 'x,y', ' "p" '])
+            if (n // 6) % 2 == 0:
+                # and a query that is sure to show it
+                q = {'kind': 'select', 'items': [{'kind': 'star'}], 'distinct': None, 'top': None, 'top_kw': 'top', 'where': None, 'join': None, 'order': None, 'group': None, 'except': None, 'assign': [], 'with': None}
+                B = bn = None
         has_header = an is not None
         qtext = qast.render(q, qast.Ctx(an, bn), 'py')
         ref = boundary.run_query_table(ns, qtext, [list(x) for x in A], None if B is None else [list(x) for x in B], an, bn, True, init)
@@ -564,7 +568,7 @@ def options_leg(ns, res, spec, d, rng):
         enc = 'latin-1' if mode == 'latin1' else 'utf-8'
         dlm, pol, cli_dlm = (',', 'quoted', ',')
         if mode == 'defpolicy':
-            dlm, pol, cli_dlm = [(',', 'quoted', ','), (';', 'quoted', ';'), ('\t', 'simple', 'TAB'), ('|', 'simple', '|'), (' ', 'whitespace', ' '), ('::', 'simple', '::')][(idx // 4) % 6]
+            dlm, pol, cli_dlm = [(',', 'quoted', ','), (';', 'quoted', ';'), ('\t', 'simple', 'TAB'), ('|', 'simple', '|'), (' ', 'whitespace', ' '), ('::', 'simple', '::')][n % 6]
         alltext = ([an] if an else []) + A + (B or []) + ([bn] if bn else [])
         if mode == 'latin1' and not qtext.isascii():
             res.count('cases_skipped_not_encodable')      # documented: a non-ASCII query needs the utf-8 encoding
